@@ -271,4 +271,21 @@ template's final `accept;` applies. -/
 def birdKernelV4 (hasSubnet : Bool) (p : Policy) (ipip vxlan : Mode) : Bool :=
   if hasSubnet then birdPrograms p ipip vxlan else true
 
+/-! ## pool attributes that must NOT matter
+
+An IP pool also has a `disabled` flag (closed to new assignments; it keeps its blocks and workloads,
+the route resolver keeps emitting its routes, confd never looks at the flag).  The model carries it
+only to state that ownership ignores it. -/
+
+structure PoolSpec where
+  cls : PoolClass
+  disabled : Bool
+deriving Repr, DecidableEq
+
+def Dyn.startSpecs (T : FelixTable) (G : FelixGuards) (v : Str) (ps : List PoolSpec) : Dyn :=
+  Dyn.start T G v (ps.map (·.cls))
+
+def Dyn.setSpec (T : FelixTable) (G : FelixGuards) (v : Str) (s : Dyn) (p : Nat) (x : PoolSpec) : Dyn × Bool :=
+  Dyn.setClass T G v s p x.cls
+
 end CalicoVerif.C28
